@@ -7,7 +7,10 @@
    harness/sim/tag_t3t4.py SimT3Tag) is the second device the reader can talk to.
 
    _write_ndef_data is modelled with the repair fixes/c01-tt3-write-batch-frame-limit.diff
-   (number of blocks per write command limited to what fits a FeliCa frame).
+   (number of blocks per write command limited to what fits a FeliCa frame) and the C16 repair
+   (command errors of the attribute read propagate out of the write); _read_ndef_data and
+   send_cmd_recv_rsp with the C08 repairs fixes/c08-07..10 (short responses, Nbr = 0,
+   Ln > capacity, at most 15 blocks per read command).
    Definitions only. *)
 From Coq Require Import ZArith List Bool.
 From NV Require Import Base.Result Base.Bytes Base.PyPrims Proofs.Chunks.
@@ -57,16 +60,14 @@ Definition wr_frame (idm bl data : list Z) : res (list Z) :=
   do es <- blk_elems bl;
   if len bl >? 255 then Crash ValueErr else t3_frame 8 idm ([1; 9; 0; len bl] ++ es ++ data).
 
-(* response checks of send_cmd_recv_rsp (send_idm, check_status) *)
+(* response checks of send_cmd_recv_rsp (send_idm, check_status); responses shorter than 2 / 12 bytes are
+   RSP_LENGTH_ERROR (fixes/c08-07) *)
 Definition t3_rsp (code : Z) (idm rsp : list Z) : res (list Z) :=
-  do r0 <- idx rsp 0;
-  if negb (r0 =? len rsp) then Err (TagCommandError 1) else
-  do r1 <- idx rsp 1;
-  if negb (r1 =? code + 1) then Err (TagCommandError 2) else
+  if (len rsp <? 2) || negb (bt rsp 0 =? len rsp) then Err (TagCommandError 1) else
+  if negb (bt rsp 1 =? code + 1) then Err (TagCommandError 2) else
   if negb (list_eqb (slice rsp 2 10) idm) then Err (TagCommandError 3) else
-  do s1 <- idx rsp 10;
-  if negb (s1 =? 0) then
-    match nth_error rsp 11 with Some s2 => Err (TagCommandError (s1 * 256 + s2)) | None => Crash StructErr end
+  if len rsp <? 12 then Err (TagCommandError 1) else
+  if negb (bt rsp 10 =? 0) then Err (TagCommandError (bt rsp 10 * 256 + bt rsp 11))
   else Ok (drop 12 rsp).
 
 (* ------------------------------------------------------------ reader / writer over a device *)
@@ -83,6 +84,16 @@ Definition read_attr (s : S) : res (option attrs) * S :=
   match dev_read s [0] with
   | (Ok d, s1) => (Ok (attr_parse d), s1)
   | (Err _, s1) => (Ok None, s1)
+  | (Crash c, s1) => (Crash c, s1)
+  | (Hang, s1) => (Hang, s1)
+  end.
+
+(* _read_attribute_data as called from _write_ndef_data: a command error propagates (it is no longer
+   turned into None), a checksum error still yields None *)
+Definition read_attr_w (s : S) : res (option attrs) * S :=
+  match dev_read s [0] with
+  | (Ok d, s1) => (Ok (attr_parse d), s1)
+  | (Err e, s1) => (Err e, s1)
   | (Crash c, s1) => (Crash c, s1)
   | (Hang, s1) => (Hang, s1)
   end.
@@ -111,9 +122,10 @@ Definition read_ndef (s : S) : res fresh * S :=
   | (Ok None, s1) => (Ok NoNdef, s1)
   | (Ok (Some a), s1) =>
     if negb (a_ver a / 16 =? 1) then (Ok NoNdef, s1) else
-    if a_nbr a =? 0 then (Crash RangeStep0, s1) else
+    if a_nbr a =? 0 then (Ok NoNdef, s1) else                       (* fixes/c08-08 *)
+    if a_ln a >? a_nmaxb a * 16 then (Ok NoNdef, s1) else           (* fixes/c08-09 *)
     let last := 1 + (a_ln a + 15) / 16 in
-    match rd_loop (Z.to_nat last) s1 1 last (a_nbr a) [] with
+    match rd_loop (Z.to_nat last) s1 1 last (Z.min (a_nbr a) 15) [] with   (* fixes/c08-10: nbr = min(Nbr, 15) *)
     | (Ok None, s2) => (Ok NoNdef, s2)
     | (Ok (Some d), s2) =>
       (Ok (Ndef (attr_readable a) (attr_writeable a) (a_nmaxb a * 16) (take (a_ln a) d)), s2)
@@ -155,8 +167,8 @@ Fixpoint run_cmds (s : S) (cs : list (list Z * list Z)) : res unit * S :=
 
 (* _write_ndef_data *)
 Definition write_ndef (s : S) (data : list Z) : res unit * S :=
-  match read_attr s with
-  | (Ok None, s1) => (Crash TypeErr, s1)               (* None['writef'] = 0x0F *)
+  match read_attr_w s with
+  | (Ok None, s1) => (Crash TypeErr, s1)               (* checksum error: None['writef'] = 0x0F *)
   | (Ok (Some a), s1) =>
     if wr_batch a (len data) =? 0 then                  (* range(1, last, 0) after the first attribute write *)
       match run_cmds s1 [plan_head a] with (Ok _, s2) => (Crash RangeStep0, s2) | (e, s2) => (e, s2) end
